@@ -1,12 +1,13 @@
 (* C07 correspondence driver: evaluates the extracted pager model on the harness' cases.
-   case : <kind> <mode s|c> <api q|e> <cons full|slowMS|dropN> <nodes> <policy> <script>
-   impl : <items> <keys>
+   case : <kind> <mode s|c> <api q|e|E> <cons full|slowMS|jit|dropN|st<state>> <nodes> <policy> <script>
+   impl : <items> <keys>      (kind P, cons st<state>: <p<rows>:<next>|pv|e<code>> <keys>)
    script : pages joined by ';' ; page = <faults>/<resp>
      faults : '-' | f(,f)*   f = C | T | U (UNPREPARED + transparent re-prepare) |
               D<ms> (delay, not a fault) | E<hexcode><s|n|d|i>
      resp   : R<rows>:<state> | V | X    rows = '-' | hex(.hex)*   state = N | '-' | hexbytes
    items : '-' | i(,i)*  i = r<hex> | e<hex> | $ ; or f<hex> = the constructor returned this error
-   keys  : 'none' | k(,k)*  k = <page hex>:<state> *)
+   keys  : 'none' | k(,k)*  k = <page hex>:<state>:<mock node hex>
+   one verdict line per input line: ok[ ...] | diff ... | viol ... | error ... *)
 let parse_fault (s : string) : fault option =
   match s.[0] with
   | 'C' -> Some FConnFail
@@ -117,7 +118,7 @@ let verdict case impl =
     let known = known_ignored m n script in
     let is_single = String.length cons >= 2 && String.sub cons 0 2 = "st" in
     if is_single then begin
-      (* one page resumed with the caller's paging state (C07_single_page_state).  The property
+      (* one page resumed with the caller's paging state (C07_single_page_outcome, acceptor accept_single).  The property
          sentence here: every request carries exactly that state -> `viol`; any other difference
          from the model (result, number of attempts) -> `diff` *)
       match obs, script with
@@ -139,7 +140,7 @@ let verdict case impl =
                   Some (SRows (rows, parse_state nx))
                 | _ -> None)
              else None in
-           (* ok only through accept_single (C07_accept_single_sound); viol only when the property
+           (* ok only through accept_single (C07_accept_single_unfolds); viol only when the property
               sentence -- every request carries the caller's state -- fails (prop_single_ok) *)
            match obs_res with
            | Some r when accept_single st ps r ok (List.map snd nl) -> "ok"
@@ -173,66 +174,76 @@ let verdict case impl =
        let accepts sc =
          if as_drop then accept_drop m sc cnt oi ok
          else accept_full m sc oi ok && ctor_failed = ctor_fails m sc in
-       (* Cases with a scripted client-side timeout (T) run under a wall-clock bound: when the
-          machine stalls, the timeout may strike an earlier attempt.  accept_full_timeout (Coq,
-          C07_early_timeout_sound) accepts exactly the observations explained by the script with
-          the timeout moved to an earlier attempt; full reads only. *)
+       (* Cases with a scripted client-side timeout (T, E) run under a wall-clock bound: when the
+          machine stalls, the timeout may strike an earlier attempt.  accept_full_timeout /
+          accept_drop_timeout (Coq, C07_early_timeout_sound / C07_drop_timeout_sound: soundness
+          only) accept only observations explained by the script with the timeout moved to an
+          earlier attempt. *)
        let has_t = List.exists (fun ps -> List.mem FTimeout ps.ps_faults) script in
-       let earlier_timeouts () = accept_full_timeout m script ctor_failed oi ok in
        (* target identities (Session pagers): the node of every request must follow coordinator
           stability (C07_coordinator_stability: every model run satisfies coord_ok).  Not part of
           the property statement: a mismatch is `diff`.  After an early drop the last page's
-          requests may be cut short by the snapshot: that group is not judged. *)
+          requests may be cut short by the snapshot: of that group only the first request is
+          judged (it must go to the node that answered the page before). *)
        let bad_keys = (parse_nodes keys = None) in
-       let coord_fine =
+       let coord_for sc =
          if m = MConn then true else
            match parse_nodes keys with
            | None -> false
            | Some l ->
              let g = group_nodes l in
-             if not as_drop then coord_ok None script g
+             if not as_drop then coord_ok None sc g
              else begin
-               (* all complete groups by coord_ok; of the last (possibly cut) group only where it
-                  started: at the node that answered the page before *)
                match List.rev g with
                | [] -> true
                | lastg :: revfull ->
                  let full = List.rev revfull in
-                 coord_ok None script full &&
-                 (match List.rev full, lastg, List.nth_opt script (List.length full) with
+                 coord_ok None sc full &&
+                 (match List.rev full, lastg, List.nth_opt sc (List.length full) with
                   | prev :: _, x :: _, Some ps when (match ps.ps_faults with FConnFail :: _ -> false | _ -> true) ->
                     fits (last_opt prev) [] x
                   | _ -> true)
              end in
+       let coord_fine = coord_for script in
        let acc = accepts script in
+       (* T/E cases: the client may return its timeout error before the frame it queued last has
+          reached the mock; the runner waits for 300 ms of silence, but a later arrival cannot be
+          excluded.  An observation whose items are those of an explaining environment and whose
+          keys are that environment's keys WITHOUT the last request was not fully observed: it is
+          counted as not run (capped by checks/c07.py), never `viol`. *)
+       let trace_race () =
+         has_t && not as_drop &&
+         List.exists (fun sc ->
+             let (rq, o) = seq_run m sc in
+             let mk = List.map req_key rq in
+             ctor_failed = ctor_fails m sc && obs_items o = oi && mk <> [] &&
+             ok = List.rev (List.tl (List.rev mk)))
+           (script :: early_timeouts script) in
        if bad_keys then "error bad-keys" else
        if known then begin
          (* inside class O1 the acceptor has no soundness theorem: the property predicate itself
-            decides (an early drop may end before the point where model and property part) *)
+            decides (an early drop may end before the point where model and property part).  A
+            coordinator mismatch is never more than `diff`. *)
          if prop && acc && not coord_fine then "diff coordinator-stability model=" ^ model_string m script
          else if prop && acc then "ok"
          else if prop then "diff class-O1-script-but-error-surfaced model=" ^ model_string m script
-         else if acc && not coord_fine then "viol spec=" ^ show_expected exp_strict ^ " (also: coordinator-stability)"
+         else if acc && not coord_fine then "diff coordinator-stability class-O1-script model=" ^ model_string m script
          else if acc then "viol class=ignore-write-error-silent-end spec=" ^ show_expected exp_strict
          else "viol spec=" ^ show_expected exp_strict
        end
        else if acc && not coord_fine then "diff coordinator-stability model=" ^ model_string m script
        else if acc then "ok"
        else if as_drop && has_t && accept_drop_timeout m script cnt oi ok then
-         (* C07_drop_timeout_sound; nodes judged like any drop case against the explaining script *)
-         (let coord_sc sc = m = MConn || (match parse_nodes keys with
-              | None -> false
-              | Some l -> (match List.rev (group_nodes l) with [] -> true | _ :: r -> coord_ok None sc (List.rev r))) in
-          if List.exists (fun sc -> accept_drop m sc cnt oi ok && not (ctor_fails m sc) && coord_sc sc) (early_timeouts script)
-          then "ok early-timeout" else "diff coordinator-stability (early-timeout) model=" ^ model_string m script)
-       else if (not as_drop) && has_t && earlier_timeouts () then
-         (* the nodes are judged against an environment that explains the observation *)
-         (let coord_sc sc = m = MConn || (match parse_nodes keys with
-              | None -> false | Some l -> coord_ok None sc (group_nodes l)) in
-          if List.exists (fun sc -> accept_full m sc oi ok && ctor_failed = ctor_fails m sc && coord_sc sc)
+         (* C07_drop_timeout_sound; the nodes are judged against an environment that explains the
+            observation, like any drop case *)
+         (if List.exists (fun sc -> accept_drop m sc cnt oi ok && not (ctor_fails m sc) && coord_for sc) (early_timeouts script)
+          then "ok early-timeout drop" else "diff coordinator-stability (early-timeout) model=" ^ model_string m script)
+       else if (not as_drop) && has_t && accept_full_timeout m script ctor_failed oi ok then
+         (if List.exists (fun sc -> accept_full m sc oi ok && ctor_failed = ctor_fails m sc && coord_for sc)
               (early_timeouts script)
-          then "ok early-timeout"
+          then "ok early-timeout full"
           else "diff coordinator-stability (early-timeout) model=" ^ model_string m script)
+       else if trace_race () then "ok not-run trace-race"
        else if not prop then "viol spec=" ^ show_expected exp_strict
        else "diff model=" ^ model_string m script
      | _ -> "error bad-observation")
